@@ -216,14 +216,43 @@ class ExprGen:
         return self.list_(d)
 
 
+def gen_deep_expr(r: random.Random, decls: Dict[str, str], salt: int = 0) -> str:
+    """Deeply nested but small expressions (CEL requires tens of nesting levels to work); they need
+    far more Python stack than ordinary ones."""
+    g = ExprGen(r, decls, salt, undeclared=False)
+    n = r.choice([12, 20, 28, 32, 40, 48, 60, 80])
+    style = r.randrange(5)
+    core = g.int_(1)
+    if style == 0:
+        return "(" * n + core + ")" * n
+    if style == 1:
+        e = core
+        for i in range(n):
+            e = f"({g.const()} + {e})"
+        return e
+    if style == 2:
+        e = core
+        for i in range(n):
+            e = f"(true ? {e} : {g.const()})"
+        return e
+    if style == 3:
+        return "[" * n + core + "]" * n + "[0]" * n
+    e = core
+    for i in range(n):
+        e = f"[{e}].map(v, v)[0]" if i % 8 == 0 else f"({e})"
+    return e
+
+
 INVALID_TEXTS = ["1 +", "(x", "x ? 1", "[1, 2", "x +* 2", '"abc', "1 2", "a..b", ""]
 
 
 def gen_expr(r: random.Random, decls: Dict[str, str], salt: int = 0, depth: Optional[int] = None,
              invalid_share: float = 0.04, host: Optional[List[str]] = None,
-             size_focus: bool = False) -> str:
+             size_focus: bool = False, deep_share: float = 0.0) -> str:
     if r.random() < invalid_share:
         return r.choice(INVALID_TEXTS)
+    if deep_share and r.random() < deep_share:
+        return gen_deep_expr(r, decls, salt)
     g = ExprGen(r, decls, salt, host=host, size_focus=size_focus)
     d = depth if depth is not None else r.choice([1, 2, 2, 3, 3, 4])
     if size_focus:
